@@ -2,6 +2,8 @@
    Codes: 1 = the model Vm.v predicts something else than the implementation did (VmCheck.check1, including the
               remaining budget, i.e. the number of dispatched instructions),
           2 = the specification oracle rejects the implementation's observations (independent of the model):
+              - no panic:                   a run never ends in a Rust panic (VmCheck.panic_code; e.g. an
+                                            arithmetic overflow of the budget counter in a debug build)
               - dispatched <= N:            remaining_iters <= N after the run
               - Timeout iff exhausted:      outcome Timeout -> remaining_iters = 0, outcome Ok -> remaining_iters >= 1
               - the budget does not matter when it suffices: all runs of one program on fresh VMs that end with
@@ -29,7 +31,7 @@ Definition shape4 (o : obs) : list N :=
 
 Definition run_oracle (budget : N) (o : obs) : list N :=
   match remaining o with
-  | None => match ob_out o with ObPanic => [] | _ => [3] end
+  | None => match ob_out o with ObPanic => [] (* code 2 by VmCheck.panic_code *) | _ => [3] end
   | Some r =>
       (if r <=? budget then [] else [2]) ++
       match ob_out o with
